@@ -13,7 +13,7 @@ def run(chk, drv):
     chk.extra["rule"] = ("random well-formed schemas (all 18 field kinds × singular/optional/repeated/oneof/map, wrappers, Timestamp/Duration, "
                          "recursive messages), values biased to boundaries and to default-but-present members; plus messages that went through parse() "
                          "with unknown fields; plus messages built by Cls() and filled IN PLACE (lists extended, dicts updated, sub-messages filled through m.sub.x = …) so that "
-                         "serialized_on_wire of the holder stays False. non-trivial = at least one constructor argument; distinct by (schema, value) line")
+                         "serialized_on_wire of the holder stays False; every message is measured, then grown in place (list.append, nested), then measured again. non-trivial = at least one constructor argument; distinct by (schema, value) line")
     nb = 60 if quick else 600
     for bi in range(nb):
         b = W.Batch(chk.rng, "s%d" % bi, 12)
@@ -50,6 +50,42 @@ def fill_inplace(m, b, ci, v, rng, top=True):
     return "m %d %d - %d%s %d %s" % (ci, int(ow), md.ngroups, " -" * md.ngroups, len(slots), " ".join(slots))
 
 
+def grow_in_place(m, depth=2):
+    """after a measurement: append to every non-empty list, re-insert into every dict, descend into
+    sub-messages — all in place, no attribute assignment on `m` itself. Returns True if anything grew."""
+    import dataclasses
+    grew = False
+    for fld in dataclasses.fields(m):
+        try:
+            v = m._Message__raw_get(fld.name)
+        except AttributeError:
+            continue
+        if isinstance(v, list) and v:
+            v.append(v[0])
+            grew = True
+            if isinstance(v[0], betterproto.Message) and depth > 0:
+                grew = grow_in_place(v[0], depth - 1) or grew
+        elif isinstance(v, betterproto.Message) and depth > 0:
+            grew = grow_in_place(v, depth - 1) or grew
+        elif isinstance(v, dict) and depth > 0:
+            for x in v.values():
+                if isinstance(x, betterproto.Message):
+                    grew = grow_in_place(x, depth - 1) or grew
+    return grew
+
+
+def remeasure(chk, inp, m):
+    """len / dump are functions of the CURRENT value: measure, change the value in place, measure again"""
+    try:
+        if not grow_in_place(m):
+            return
+    except Exception as e:
+        chk.count("grow_skipped_" + type(e).__name__)
+        return
+    chk.count("remeasured_after_in_place_growth")
+    oracle(chk, dict(inp, then="lists appended to in place after the first len()/dump()"), observe(m))
+
+
 def inplace_stage(chk, drv, b):
     """messages built by `Cls()` and then filled in place (`m.items.append(x)`, `m.table[k] = v`, `m.sub.n = 1`)"""
     lines, objs = [], []
@@ -57,7 +93,8 @@ def inplace_stage(chk, drv, b):
         ci = v[1]
         try:
             m = b.classes[ci]()
-            t = fill_inplace(m, b, ci, v, chk.rng)
+            observe(m)                                   # measured while still empty …
+            t = fill_inplace(m, b, ci, v, chk.rng)       # … then filled in place
         except Exception as e:
             chk.count("inplace_skipped_" + type(e).__name__)
             continue
@@ -71,6 +108,7 @@ def inplace_stage(chk, drv, b):
         chk.case(b.schema_line() + "|inplace|" + t, nontriv, {"built_in_place": t[:200]})
         chk.count("inplace_nonempty" if nontriv else "inplace_empty")
         oracle(chk, inp, o)
+        remeasure(chk, inp, m)
         if replies:
             for k, key in enumerate(("bytes", "len", "dumpd")):
                 r = replies[3 * i + k]
@@ -187,6 +225,7 @@ def one_batch(chk, drv, b):
         chk.case(b.schema_line() + "|" + bpgen.term(v), not W.is_trivial(v),
                  {"value": bpgen.term(v), "bytes": o["bytes"].hex() if isinstance(o["bytes"], bytes) else "raises", "len": repr(o["len"])})
         oracle(chk, inp, o)
+        remeasure(chk, inp, m)
         if replies:
             for k, key in enumerate(("bytes", "len", "dumpd")):
                 r = replies[3 * i + k]
@@ -248,14 +287,20 @@ def replay(chk, rp):
         schema = schema_from_desc(inp["schema"])
         classes = bpgen.build_bp(schema)
         c = type(chk)(chk.pid, "quick", 0)
-        oracle(c, inp, observe(from_raw_term(inp["built_in_place"].split(), schema, classes)[0]))
+        m0 = classes[int(inp["built_in_place"].split()[1])]()
+        observe(m0)
+        m0 = from_raw_term(inp["built_in_place"].split(), schema, classes, m0)[0]
+        oracle(c, inp, observe(m0))
+        remeasure(c, inp, m0)
         return bool(c.oracle_failures)
     if "value" in inp and "schema" in inp:
         schema = schema_from_desc(inp["schema"])
         classes = bpgen.build_bp(schema)
         v = parse_term(inp["value"].split())[0]
         c = type(chk)(chk.pid, "quick", 0)
-        oracle(c, inp, observe(bpgen.to_py(v, classes)))
+        m0 = bpgen.to_py(v, classes)
+        oracle(c, inp, observe(m0))
+        remeasure(c, inp, m0)
         return bool(c.oracle_failures)
     return True
 
